@@ -28,6 +28,38 @@ def _exc_safe(cfg, risky_pred, cleanup_pred):
     return bad
 
 
+def _exc_safe_cond(cfg, risky_pred, cleanup_pred, flag):
+    """As _exc_safe, for a cleanup that is needed only when `flag` is true: paths leaving a test of
+    exactly `flag` through its false edge are not obligations."""
+    bad = []
+    for n in cfg.nodes:
+        if not risky_pred(n):
+            continue
+        seen = set()
+        stack = [n.id]
+        reached = False
+        while stack:
+            x = stack.pop()
+            if x in seen:
+                continue
+            seen.add(x)
+            if x == cfg.rse.id:
+                reached = True
+                break
+            node = cfg.nodes[x]
+            for (y, lab) in cfg.succ[x]:
+                if x != n.id and cleanup_pred(cfg.nodes[y]):
+                    continue
+                if cleanup_pred(cfg.nodes[y]):
+                    continue
+                if node.kind == "test" and norm(node.ast) == flag and lab == "F":
+                    continue
+                stack.append(y)
+        if reached:
+            bad.append(n)
+    return bad
+
+
 def run(ctx):
     repo = get_repo()
     ctx.analysed["modules"] = ["pysmt/walkers/dag.py", "pysmt/formula.py", "pysmt/smtlib/parser/parser.py",
@@ -62,8 +94,12 @@ def run(ctx):
                 ctx.error("R1", "%s: walk/iter_walk/_process_stack not resolvable" % q)
                 continue
             uses_self_stack = any(is_self_attr(n, "stack") for f in (fi, fp) for n in ast.walk(f))
-            cw = CFG(fw, may_raise=True)
-            ci_ = CFG(fi, may_raise=True)
+            # only the traversal calls are modelled as raising (a handler may raise at any node);
+            # attribute reads / list operations of the walker itself are not
+            trav = lambda node: any(attr_tail(c) in ("iter_walk", "_process_stack", "_compute_node_result",
+                                                     "_push_with_children_to_stack") for c in calls_in(node))
+            cw = CFG(fw, may_raise=trav)
+            ci_ = CFG(fi, may_raise=trav)
             risky_w = lambda n: n.ast is not None and any(attr_tail(c) == "iter_walk" for c in calls_in(n.ast))
             risky_i = lambda n: n.ast is not None and any(attr_tail(c) == "_process_stack" for c in calls_in(n.ast))
             if not uses_self_stack:
@@ -83,7 +119,7 @@ def run(ctx):
                       and "memoization" in norm(n.func)]
             if not clears:
                 rs.ok({"class": q, "memo": "walk has no one-shot clearing"})
-            elif not _exc_safe(cw, risky_w, memo_clear):
+            elif not _exc_safe_cond(cw, risky_w, memo_clear, "self.invalidate_memoization"):
                 rs.ok({"class": q, "memo": "one-shot memo cleared on exceptional exit"})
             elif wq != q:
                 rs.ok({"class": q, "memo": "inherits walk of %s (reported there)" % wq})
